@@ -523,13 +523,15 @@ def run(ctx):
     ctx.sample({"scenario": tasks[-1][0][0], "prefix": list(tasks[-1][1])[-5:], "prefix_len": len(tasks[-1][1])})
 
 
-def concurrent_part(ctx, scns, prov, what, bound=1, gran="full"):
+def concurrent_part(ctx, scns, prov, what, bound=1, gran="full", deep=None):
     """Used by the checks of other properties (C14, C16, C17): all schedules of the given two-thread scenarios up to the
     preemption bound, with the extra oracle `prov`; violations are reported under the calling property with a
     "concurrent|" prefix. Needs `preimport = c09.preimport` in the calling check module."""
     from ..core import pmap_dynamic
 
     tasks = [(scn, (), bound, {"cap": 150, "prov": prov, "gran": gran}) for scn in scns]
+    if deep:  # a second, deeper pass at a coarser granularity: (bound, granularity for the in-memory store, granularity otherwise)
+        tasks += [(scn, (), deep[0], {"cap": 150, "prov": prov, "gran": deep[1] if scn[1] == "mem" else deep[2]}) for scn in scns]
     t1 = run_once(scns[0], (), prov=prov)
     t2 = run_once(scns[0], (), prov=prov)
     ctx.selfcheck("concurrent part: default schedule replays identically", t1[0] == t2[0] and t1[1] == t2[1])
@@ -544,7 +546,10 @@ def concurrent_part(ctx, scns, prov, what, bound=1, gran="full"):
     ctx.merge(res)
     ctx.states += n
     ctx.extra["concurrent"] = {"scenarios": [s[0] for s in scns], "schedules_executed": n, "preemption_bound": bound, "granularity": gran}
-    ctx.rule += " Concurrent part: %s; every schedule of two threads up to %d preemption(s) under the controlled scheduler of C09." % (what, bound)
+    if deep:
+        ctx.extra["concurrent"]["second_pass"] = {"preemption_bound": deep[0], "granularity": {"memory store": deep[1], "otherwise": deep[2]}}
+    ctx.rule += " Concurrent part: %s; every schedule of two threads up to %d preemption(s) under the controlled scheduler of C09%s." % (
+        what, bound, " (and up to %d at %s / %s granularity)" % deep if deep else "")
 
 
 def replay_concurrent(prop, art):
